@@ -321,3 +321,597 @@ Section Generic.
         repeat split; try assumption. apply Forall_app. split; [exact F|]. constructor; [exact NI|constructor].
       + exists h, now, r, []. subst o. repeat split; try assumption. constructor.
   Qed.
+
+  Lemma hit_out : forall (s : state U) now r b, hit s now r b ->
+    snd (enforce_step uenforce s now r) = ODec b false.
+  Proof.
+    intros s now r b [En [k [K G]]]. unfold enforce_step. rewrite En, K. cbn [negb].
+    destruct (cache_get k now (cache_of s)) as [c o]. cbn [snd] in G. subst o. reflexivity.
+  Qed.
+
+  Lemma hit_lookup : forall (s : state U) now r b, hit s now r b ->
+    exists k e, get_key r = Some k /\ lookup k (cache_of s) = Some e /\ e_val e = b /\
+      ((e_ttl e <= 0)%Z \/ (now <= e_exp e)%Z).
+  Proof.
+    intros s now r b [En [k [K G]]]. exists k.
+    destruct (cache_get_cases k now (cache_of s)) as [[e [L [X E]]]|[[L E]|[e [L [X E]]]]];
+      rewrite E in G; cbn [snd] in G; try discriminate.
+    injection G as G. exists e. repeat split; try assumption.
+    apply andb_false_iff in X. destruct X as [X|X].
+    - left. apply Z.ltb_ge in X. exact X.
+    - right. apply Z.ltb_ge in X. exact X.
+  Qed.
+
+  (* served_was_given: a decision served from the cache for r at time `now` was returned by the
+     underlying Enforce, for a request r' with the key of r, at an earlier point h1 of the
+     history; no invalidation event for that key happened since, and the configured lifetime
+     (as of that point) has not expired *)
+  Lemma served_was_given : forall v u0 h now r b,
+    hit (grun v (init u0) h) now r b ->
+    snd (gstep v (grun v (init u0) h) (Enforce now r)) = ODec b false /\
+    exists k h1 t r' h2,
+      get_key r = Some k /\ get_key r' = Some k /\
+      h = (h1 ++ Enforce t r' :: h2)%list /\
+      uenforce (ust (grun v (init u0) h1)) r' = Some b /\
+      Forall (fun o => invalidates v o k = false) h2 /\
+      ((expire (grun v (init u0) h1) <= 0)%Z \/ (now <= t + expire (grun v (init u0) h1))%Z).
+  Proof.
+    intros v u0 h now r b H. split; [cbn [step]; now apply hit_out|].
+    destruct (hit_lookup _ _ _ _ H) as [k [e [K [L [Ev Fresh]]]]].
+    destruct (cache_entries_produced _ _ _ _ _ L) as [h1 [t [r' [h2 [Eh [K' [En [Ue [Et [Ex F]]]]]]]]]].
+    exists k, h1, t, r', h2. rewrite Ev in Ue. rewrite Et, Ex in Fresh. auto 10.
+  Qed.
+
+  Lemma preserved_along : forall v r k b h2 s,
+    get_key r = Some k ->
+    Forall (respects_for uenforce ustep v r) h2 ->
+    Forall (fun o => invalidates v o k = false) h2 ->
+    uenforce (ust s) r = Some b -> uenforce (ust (grun v s h2)) r = Some b.
+  Proof.
+    intros v r k b h2. induction h2 as [|o h2 IH]; intros s K R F Hs; [exact Hs|].
+    inversion R as [|? ? Ro Rt]; subst. inversion F as [|? ? Fo Ft]; subst.
+    cbn [run fold_left]. apply (IH (fst (gstep v s o)) K Rt Ft). now apply (Ro s k b).
+  Qed.
+
+  (* transparent: if every operation of the history keeps the decisions for r unless it is an
+     invalidation event for the key of r, and no other request of the history has the key of r,
+     then Enforce(r) answers exactly what the underlying enforcer answers now *)
+  Lemma transparent : forall v u0 h r now,
+    Forall (respects_for uenforce ustep v r) h -> no_collision h r ->
+    snd (gstep v (grun v (init u0) h) (Enforce now r)) =
+    out_of_u (uenforce (ust (grun v (init u0) h)) r).
+  Proof.
+    intros v u0 h r now R NC. cbn [step].
+    destruct (enforce_cases (grun v (init u0) h) now r) as [[b [Hh Ho]]|[_ Ho]]; [|exact Ho].
+    rewrite Ho.
+    destruct (served_was_given _ _ _ _ _ _ Hh) as [_ [k [h1 [t [r' [h2 [K [K' [Eh [Ue [F _]]]]]]]]]]].
+    assert (r' = r) as ->.
+    { apply (NC t). - rewrite Eh. apply in_elt. - now rewrite K, K'. }
+    assert (uenforce (ust (grun v (init u0) h)) r = Some b) as ->; [|reflexivity].
+    rewrite Eh, run_app. cbn [run fold_left]. fold (grun v).
+    rewrite Eh in R. apply Forall_app in R. destruct R as [_ R]. inversion R as [|? ? _ R2]; subst.
+    apply (preserved_along v r k b h2 _ K R2 F).
+    cbn [step]. now rewrite enforce_ust.
+  Qed.
+
+  (* operations that do not call a mutator of the underlying enforcer respect everything *)
+  Lemma respects_nonmutating : forall v r o,
+    match o with
+    | Enforce _ _ | InvalidateCache | EnableCache _ | SetExpireTime _ => True
+    | _ => False
+    end -> respects_for uenforce ustep v r o.
+  Proof.
+    intros v r o Ho s k b _ _ Hs. destruct o; try contradiction; cbn [step].
+    - now rewrite enforce_ust.
+    - exact Hs.
+    - exact Hs.
+    - exact Hs.
+  Qed.
+
+  (* ------------------------------ invalidation -------------------------------------- *)
+
+  Lemma invalidation_complete : forall v s o,
+    o = InvalidateCache \/ o = LoadPolicy \/ o = ClearPolicy ->
+    cache_of (fst (gstep v s o)) = [].
+  Proof.
+    intros v s o [-> | [-> | ->]]; cbn [step]; try apply with_u_cache. reflexivity.
+  Qed.
+
+  Lemma miss_is_underlying : forall (s : state U) now r,
+    (forall k, get_key r = Some k -> lookup k (cache_of s) = None) ->
+    snd (enforce_step uenforce s now r) = out_of_u (uenforce (ust s) r).
+  Proof.
+    intros s now r H. destruct (enforce_cases s now r) as [[b [Hh _]]|[_ Ho]]; [|exact Ho].
+    destruct (hit_lookup _ _ _ _ Hh) as [k [e [K [L _]]]]. rewrite (H k K) in L. discriminate.
+  Qed.
+
+  (* nothing cached before InvalidateCache / LoadPolicy / ClearPolicy is served afterwards,
+     whatever the value of enableCache at the time of the call or later *)
+  Lemma after_invalidation_fresh : forall v s o now r,
+    o = InvalidateCache \/ o = LoadPolicy \/ o = ClearPolicy ->
+    snd (gstep v (fst (gstep v s o)) (Enforce now r)) =
+    out_of_u (uenforce (ust (fst (gstep v s o))) r).
+  Proof.
+    intros v s o now r Ho. cbn [step]. apply miss_is_underlying. intros k _.
+    now rewrite (invalidation_complete v s o Ho).
+  Qed.
+
+  Lemma rule_params_strs : forall rule, rule_params (map PStr rule) = map PStr rule.
+  Proof. intros [|a [|b rule]]; reflexivity. Qed.
+
+  Lemma check_one_drops : forall rule ps c,
+    ps = map PStr rule \/ ps = [PSlice rule] ->
+    lookup (key_of_texts rule) (check_one ps c) = None.
+  Proof.
+    intros rule ps c [-> | ->]; unfold check_one.
+    - rewrite rule_params_strs, get_key_strs. apply lookup_delete_same.
+    - cbn [rule_params]. rewrite get_key_strs. apply lookup_delete_same.
+  Qed.
+
+  Lemma check_many_drops : forall rules rule c, In rule rules ->
+    lookup (key_of_texts rule) (check_many rules c) = None.
+  Proof.
+    intros rules rule c Hin. unfold check_many, keys_of_batch.
+    apply lookup_delete_all_in. now apply in_map.
+  Qed.
+
+  (* removal of the identical rule, both calling conventions, both wrappers, any enableCache *)
+  Lemma remove_drops_rule : forall v s rule ps,
+    ps = map PStr rule \/ ps = [PSlice rule] ->
+    lookup (key_of_texts rule) (cache_of (fst (gstep v s (RemovePolicy ps)))) = None.
+  Proof. intros. cbn [step]. rewrite with_u_cache. now apply check_one_drops. Qed.
+
+  Lemma remove_policies_drops_rules : forall v s rules rule, In rule rules ->
+    lookup (key_of_texts rule) (cache_of (fst (gstep v s (RemovePolicies rules)))) = None.
+  Proof. intros. cbn [step]. rewrite with_u_cache. now apply check_many_drops. Qed.
+
+  Lemma synced_add_drops_rule : forall s rule ps,
+    ps = map PStr rule \/ ps = [PSlice rule] ->
+    lookup (key_of_texts rule) (cache_of (fst (gstep Synced s (AddPolicy ps)))) = None.
+  Proof. intros. cbn [step]. rewrite with_u_cache. now apply check_one_drops. Qed.
+
+  Lemma synced_add_policies_drops_rules : forall s rules rule, In rule rules ->
+    lookup (key_of_texts rule) (cache_of (fst (gstep Synced s (AddPolicies rules)))) = None.
+  Proof. intros. cbn [step]. rewrite with_u_cache. now apply check_many_drops. Qed.
+
+  (* ... hence the next Enforce of the request equal to that rule asks the underlying enforcer *)
+  Lemma dropped_rule_not_served : forall v s o rule now,
+    (exists ps, (ps = map PStr rule \/ ps = [PSlice rule]) /\
+                (o = RemovePolicy ps \/ (v = Synced /\ o = AddPolicy ps))) \/
+    (exists rules, In rule rules /\ (o = RemovePolicies rules \/ (v = Synced /\ o = AddPolicies rules))) ->
+    snd (gstep v (fst (gstep v s o)) (Enforce now (map PStr rule))) =
+    out_of_u (uenforce (ust (fst (gstep v s o))) (map PStr rule)).
+  Proof.
+    intros v s o rule now H. cbn [step]. apply miss_is_underlying. intros k K.
+    rewrite get_key_strs in K. injection K as <-.
+    destruct H as [[ps [Hps [-> | [-> ->]]]] | [rules [Hin [-> | [-> ->]]]]].
+    - now apply remove_drops_rule.
+    - now apply synced_add_drops_rule.
+    - now apply remove_policies_drops_rules.
+    - now apply synced_add_policies_drops_rules.
+  Qed.
+
+  (* ------------------------------ lifetime ------------------------------------------ *)
+
+  Lemma ttl_expiry : forall v (s : state U) now r k e,
+    get_key r = Some k -> lookup k (cache_of s) = Some e ->
+    (0 < e_ttl e)%Z -> (e_exp e < now)%Z ->
+    (forall b, ~ hit s now r b) /\
+    snd (gstep v s (Enforce now r)) = out_of_u (uenforce (ust s) r).
+  Proof.
+    intros v s now r k e K L T X.
+    assert (forall b, ~ hit s now r b) as NH.
+    { intros b Hh. destruct (hit_lookup _ _ _ _ Hh) as [k' [e' [K' [L' [_ Fr]]]]].
+      rewrite K in K'. injection K' as <-. rewrite L in L'. injection L' as <-. lia. }
+    split; [exact NH|].
+    cbn [step]. destruct (enforce_cases s now r) as [[b [Hh _]]|[_ Ho]]; [|exact Ho].
+    exfalso. exact (NH b Hh).
+  Qed.
+
+  (* Get deletes the expired item; what is stored afterwards is the fresh answer, if any *)
+  Lemma ttl_expired_replaced : forall v (s : state U) now r k e,
+    enabled s = true -> get_key r = Some k -> lookup k (cache_of s) = Some e ->
+    (0 < e_ttl e)%Z -> (e_exp e < now)%Z ->
+    lookup k (cache_of (fst (gstep v s (Enforce now r)))) =
+    option_map (fun b => mk_entry b (expire s) (now + expire s)%Z) (uenforce (ust s) r).
+  Proof.
+    intros v s now r k e En K L T X. cbn [step]. unfold enforce_step. rewrite En, K. cbn [negb].
+    unfold cache_get. rewrite L.
+    assert (((0 <? e_ttl e)%Z && (e_exp e <? now)%Z)%bool = true) as ->.
+    { apply andb_true_iff. split; apply Z.ltb_lt; assumption. }
+    destruct (uenforce (ust s) r); cbn [fst set_cache cache_of option_map].
+    - now rewrite lookup_set_same.
+    - apply lookup_delete_same.
+  Qed.
+
+  (* an item whose lifetime is <= 0 never expires; one with a positive lifetime is served up
+     to and including its expiry instant *)
+  Lemma ttl_fresh_served : forall v (s : state U) now r k e,
+    enabled s = true -> get_key r = Some k -> lookup k (cache_of s) = Some e ->
+    ((e_ttl e <= 0)%Z \/ (now <= e_exp e)%Z) ->
+    gstep v s (Enforce now r) = (s, ODec (e_val e) false).
+  Proof.
+    intros v s now r k e En K L Fr. cbn [step]. unfold enforce_step. rewrite En, K. cbn [negb].
+    unfold cache_get. rewrite L.
+    assert (((0 <? e_ttl e)%Z && (e_exp e <? now)%Z)%bool = false) as ->.
+    { apply andb_false_iff. destruct Fr as [Fr|Fr]; [left|right]; apply Z.ltb_ge; exact Fr. }
+    destruct s; reflexivity.
+  Qed.
+
+  (* ------------------------------ bypass -------------------------------------------- *)
+
+  Lemma disabled_is_passthrough : forall v (s : state U) now r,
+    enabled s = false ->
+    gstep v s (Enforce now r) = (s, out_of_u (uenforce (ust s) r)).
+  Proof. intros v s now r En. cbn [step]. unfold enforce_step. now rewrite En. Qed.
+
+  Lemma noncacheable_bypass : forall v (s : state U) now r,
+    get_key r = None ->
+    gstep v s (Enforce now r) = (s, out_of_u (uenforce (ust s) r)).
+  Proof.
+    intros v s now r K. cbn [step]. unfold enforce_step. rewrite K.
+    destruct (enabled s); reflexivity.
+  Qed.
+
+  Lemma noncacheable_iff : forall r, get_key r = None <-> exists p, In p r /\ ptext p = None.
+  Proof.
+    induction r as [|p r IH]; cbn [get_key].
+    - split; [discriminate|intros [p [[] _]]].
+    - destruct (ptext p) as [t|] eqn:T.
+      + destruct (get_key r) as [k|].
+        * split; [discriminate|]. intros [q [[<-|Hin] Hq]]; [congruence|].
+          destruct IH as [_ IH]. assert (Some k = None) as X by (apply IH; eauto). discriminate X.
+        * split; [|reflexivity]. intros _. destruct IH as [IH _].
+          destruct (IH eq_refl) as [q [Hin Hq]]. exists q. split; [now right|exact Hq].
+      + split; [|reflexivity]. intros _. exists p. split; [now left|exact T].
+  Qed.
+
+  Lemma noncacheable_bypass_ex : forall v (s : state U) now r,
+    (exists p, In p r /\ ptext p = None) ->
+    gstep v s (Enforce now r) = (s, out_of_u (uenforce (ust s) r)).
+  Proof. intros v s now r H. apply noncacheable_bypass. now apply noncacheable_iff. Qed.
+
+  (* the flags and the lifetime setting never touch the cache content *)
+  Lemma flags_keep_cache : forall v (s : state U) o,
+    match o with EnableCache _ | SetExpireTime _ => True | _ => False end ->
+    cache_of (fst (gstep v s o)) = cache_of s /\ ust (fst (gstep v s o)) = ust s.
+  Proof. intros v s o Ho. destruct o; try contradiction; split; reflexivity. Qed.
+
+  (* pass-through mutators (and AddPolicy/AddPolicies on the plain variant) change the
+     underlying state and leave every cached decision in place *)
+  Lemma passthrough_keeps_cache : forall v (s : state U) m,
+    cache_of (fst (gstep v s (Passthrough m))) = cache_of s /\
+    ust (fst (gstep v s (Passthrough m))) = fst (ustep (ust s) (UOther m)).
+  Proof. intros. cbn [step]. now rewrite with_u_cache, with_u_ust. Qed.
+
+  Lemma plain_add_keeps_cache : forall (s : state U) ps rules,
+    cache_of (fst (gstep Plain s (AddPolicy ps))) = cache_of s /\
+    cache_of (fst (gstep Plain s (AddPolicies rules))) = cache_of s.
+  Proof. intros. cbn [step]. now rewrite !with_u_cache. Qed.
+End Generic.
+
+(* ------------------------------------------------------------------------------------ *)
+(* The ACL fixture satisfies the hypothesis of `transparent`                              *)
+(* ------------------------------------------------------------------------------------ *)
+
+Lemma str_list_eqb_eq : forall a b, str_list_eqb a b = true -> a = b.
+Proof.
+  induction a as [|x a IH]; intros [|y b] H; cbn [str_list_eqb] in H; try discriminate; [reflexivity|].
+  apply andb_true_iff in H. destruct H as [H1 H2]. apply String.eqb_eq in H1. subst. f_equal. now apply IH.
+Qed.
+
+Lemma fields_match_strs : forall ps rule, fields_match ps rule = true -> ps = map PStr rule.
+Proof.
+  induction ps as [|p ps IH]; intros [|f rule] H; cbn [fields_match] in H; try discriminate; [reflexivity|].
+  apply andb_true_iff in H. destruct H as [H1 H2]. destruct p; cbn [param_is] in H1; try discriminate.
+  apply String.eqb_eq in H1. subst. cbn [map]. f_equal. now apply IH.
+Qed.
+
+Lemma all_strs_map : forall ps l, all_strs ps = Some l -> ps = map PStr l.
+Proof.
+  induction ps as [|p ps IH]; intros l H; cbn [all_strs] in H.
+  - injection H as <-. reflexivity.
+  - destruct p; try discriminate. destruct (all_strs ps) as [l'|]; [|discriminate].
+    injection H as <-. cbn [map]. f_equal. now apply IH.
+Qed.
+
+Lemma rule_of_params_key : forall ps rule, rule_of_params ps = Some rule ->
+  get_key (rule_params ps) = Some (key_of_texts rule).
+Proof.
+  intros ps rule H. unfold rule_of_params in H.
+  destruct ps as [|p ps]; [discriminate|].
+  destruct p.
+  - apply all_strs_map in H. rewrite H, (rule_params_strs rule). apply get_key_strs.
+  - cbn in H. discriminate.
+  - cbn in H. discriminate.
+  - destruct ps as [|q ps].
+    + injection H as <-. cbn [rule_params]. apply get_key_strs.
+    + cbn in H. discriminate.
+  - cbn in H. discriminate.
+Qed.
+
+Lemma scan_remove : forall rv rule b pol, fields_match rv rule = false ->
+  acl_scan pol rv = Some b -> acl_scan (remove_first rule pol) rv = Some b.
+Proof.
+  intros rv rule b pol NM. induction pol as [|r rest IH]; intro H; [exact H|].
+  cbn [acl_scan] in H. cbn [remove_first].
+  destruct (negb (Nat.eqb (List.length r) 3)) eqn:A; [discriminate|].
+  destruct (str_list_eqb rule r) eqn:E.
+  - apply str_list_eqb_eq in E. subst r. rewrite NM in H. exact H.
+  - cbn [acl_scan]. rewrite A. destruct (fields_match rv r); [exact H|]. now apply IH.
+Qed.
+
+Lemma scan_nonempty_false : forall rv r rest b,
+  acl_scan (r :: rest) rv = Some b -> fields_match rv r = false -> acl_scan rest rv = Some b.
+Proof.
+  intros rv r rest b H NM. cbn [acl_scan] in H.
+  destruct (negb (Nat.eqb (List.length r) 3)); [discriminate|]. now rewrite NM in H.
+Qed.
+
+Lemma dec_remove : forall rv rule b pol, all_empty rv = false -> fields_match rv rule = false ->
+  acl_dec pol rv = Some b -> acl_dec (remove_first rule pol) rv = Some b.
+Proof.
+  intros rv rule b pol AE NM H. destruct pol as [|r rest]; [exact H|].
+  cbn [acl_dec] in H. pose proof (scan_remove rv rule b (r :: rest) NM H) as S.
+  destruct (remove_first rule (r :: rest)) as [|r' rest'] eqn:R.
+  - cbn [acl_scan] in S. cbn [acl_dec]. now rewrite AE.
+  - exact S.
+Qed.
+
+Lemma dec_remove_many : forall rv b rules pol, all_empty rv = false ->
+  (forall rule, In rule rules -> fields_match rv rule = false) ->
+  acl_dec pol rv = Some b ->
+  acl_dec (fold_left (fun p r => remove_first r p) rules pol) rv = Some b.
+Proof.
+  intros rv b rules. induction rules as [|rule rules IH]; intros pol AE NM H; [exact H|].
+  cbn [fold_left]. apply IH; [exact AE| |].
+  - intros r Hin. apply NM. now right.
+  - apply dec_remove; [exact AE| |exact H]. apply NM. now left.
+Qed.
+
+Lemma scan_add : forall rv rule b pol, List.length rule = 3 -> fields_match rv rule = false ->
+  acl_scan pol rv = Some b -> acl_scan (pol ++ [rule])%list rv = Some b.
+Proof.
+  intros rv rule b pol L NM. induction pol as [|r rest IH]; intro H.
+  - cbn [app acl_scan] in *. rewrite L, NM. exact H.
+  - cbn [app acl_scan] in *. destruct (negb (Nat.eqb (List.length r) 3)); [discriminate|].
+    destruct (fields_match rv r); [exact H|]. now apply IH.
+Qed.
+
+Lemma dec_add : forall rv rule b pol, all_empty rv = false -> List.length rule = 3 ->
+  fields_match rv rule = false ->
+  acl_dec pol rv = Some b -> acl_dec (add_absent pol rule) rv = Some b.
+Proof.
+  intros rv rule b pol AE L NM H. unfold add_absent. destruct (has_rule rule pol); [exact H|].
+  destruct pol as [|r rest].
+  - cbn [acl_dec] in H. rewrite AE in H. injection H as <-.
+    cbn [app acl_dec acl_scan]. now rewrite L, NM.
+  - cbn [acl_dec] in H. pose proof (scan_add rv rule b (r :: rest) L NM H) as S.
+    cbn [app] in *. exact S.
+Qed.
+
+Lemma dec_add_many : forall rv b rules pol, all_empty rv = false ->
+  (forall rule, In rule rules -> List.length rule = 3 /\ fields_match rv rule = false) ->
+  acl_dec pol rv = Some b -> acl_dec (fold_left add_absent rules pol) rv = Some b.
+Proof.
+  intros rv b rules. induction rules as [|rule rules IH]; intros pol AE NM H; [exact H|].
+  cbn [fold_left]. apply IH; [exact AE| |].
+  - intros r Hin. apply NM. now right.
+  - destruct (NM rule (or_introl eq_refl)) as [L N]. now apply dec_add.
+Qed.
+
+Lemma acl_req_ok_spec : forall r, acl_req_ok r = true ->
+  all_empty r = false /\
+  forall st, acl_enforce st r =
+    if negb (Nat.eqb (List.length r) 3) then None else acl_dec (policy st) r.
+Proof.
+  intros r H. unfold acl_req_ok in H. split.
+  - destruct r as [|p r]; [discriminate H|]. destruct p; try discriminate H; now apply negb_true_iff in H.
+  - intro st. unfold acl_enforce. destruct r as [|p r]; [reflexivity|].
+    destruct p; try reflexivity. discriminate H.
+Qed.
+
+(* a request that matches a rule field by field has that rule's key *)
+Lemma match_key : forall r rule, fields_match r rule = true -> get_key r = Some (key_of_texts rule).
+Proof. intros r rule H. apply fields_match_strs in H. subst. apply get_key_strs. Qed.
+
+Lemma acl_pres : forall r b st st', acl_req_ok r = true ->
+  (acl_dec (policy st) r = Some b -> acl_dec (policy st') r = Some b) ->
+  acl_enforce st r = Some b -> acl_enforce st' r = Some b.
+Proof.
+  intros r b st st' Ok P H. destruct (acl_req_ok_spec r Ok) as [_ E]. rewrite E in *.
+  destruct (negb (Nat.eqb (List.length r) 3)); [discriminate|]. now apply P.
+Qed.
+
+Lemma nomatch_of_key : forall r k rule, get_key r = Some k ->
+  String.eqb k (key_of_texts rule) = false -> fields_match r rule = false.
+Proof.
+  intros r k rule K N. destruct (fields_match r rule) eqn:F; [|reflexivity].
+  apply match_key in F. rewrite K in F. injection F as F. subst k. now rewrite String.eqb_refl in N.
+Qed.
+
+Lemma mem_str_false : forall k l x, mem_str k l = false -> In x l -> String.eqb k x = false.
+Proof.
+  intros k l x H Hin. destruct (String.eqb k x) eqn:E; [|reflexivity].
+  assert (mem_str k l = true) as T; [|congruence].
+  unfold mem_str. apply existsb_exists. exists x. auto.
+Qed.
+
+Lemma acl_respects : forall v r o, acl_req_ok r = true -> acl_op_ok v o = true ->
+  respects_for acl_enforce acl_step v r o.
+Proof.
+  intros v r o Ok Oo.
+  destruct (acl_req_ok_spec r Ok) as [AE _].
+  destruct o; try (apply respects_nonmutating; exact I);
+    intros s k b K NI Hs; cbn [invalidates] in NI; try discriminate NI; cbn [step].
+  - (* RemovePolicy *)
+    rewrite with_u_ust. cbn [acl_step].
+    destruct (rule_of_params ps) as [rule|] eqn:R; [|exact Hs].
+    rewrite (rule_of_params_key _ _ R) in NI. cbn [key_is] in NI.
+    unfold acl_remove. destruct (has_rule rule (policy (ust s))); [|exact Hs].
+    cbn [fst]. apply (acl_pres r b (ust s)); [exact Ok| |exact Hs].
+    cbn [set_policy policy]. apply dec_remove; [exact AE|]. now apply (nomatch_of_key r k).
+  - (* RemovePolicies *)
+    rewrite with_u_ust. cbn [acl_step].
+    destruct (existsb (fun r0 => has_rule r0 (policy (ust s))) rules); [|exact Hs].
+    cbn [fst]. apply (acl_pres r b (ust s)); [exact Ok| |exact Hs].
+    cbn [set_policy policy]. apply dec_remove_many; [exact AE|].
+    intros rule Hin. apply (nomatch_of_key r k); [exact K|].
+    apply (mem_str_false k (keys_of_batch rules)); [exact NI|]. unfold keys_of_batch. now apply in_map.
+  - (* AddPolicy *)
+    destruct v; [discriminate Oo|]. cbn [acl_op_ok] in Oo.
+    rewrite with_u_ust. cbn [acl_step].
+    destruct (rule_of_params ps) as [rule|] eqn:R; [|exact Hs].
+    rewrite (rule_of_params_key _ _ R) in NI. cbn [key_is] in NI.
+    apply Nat.eqb_eq in Oo.
+    unfold acl_add. destruct (has_rule rule (policy (ust s))) eqn:Has; [exact Hs|].
+    cbn [fst]. apply (acl_pres r b (ust s)); [exact Ok| |exact Hs].
+    cbn [set_policy policy]. intro D.
+    pose proof (dec_add r rule b (policy (ust s)) AE Oo (nomatch_of_key r k rule K NI) D) as X.
+    unfold add_absent in X. now rewrite Has in X.
+  - (* AddPolicies *)
+    destruct v; [discriminate Oo|]. cbn [acl_op_ok] in Oo.
+    rewrite with_u_ust. cbn [acl_step].
+    destruct (existsb (fun r0 => has_rule r0 (policy (ust s))) rules); [exact Hs|].
+    cbn [fst]. apply (acl_pres r b (ust s)); [exact Ok| |exact Hs].
+    cbn [set_policy policy]. apply dec_add_many; [exact AE|].
+    intros rule Hin. split.
+    + rewrite forallb_forall in Oo. apply Nat.eqb_eq. now apply Oo.
+    + apply (nomatch_of_key r k); [exact K|].
+      apply (mem_str_false k (keys_of_batch rules)); [exact NI|]. unfold keys_of_batch. now apply in_map.
+  - (* Passthrough *) discriminate Oo.
+Qed.
+
+Definition reqs_plain (h : list acl_op) : bool :=
+  forallb (fun o => match o with Enforce _ r' => plain_req r' | _ => true end) h.
+
+Lemma plain_no_collision : forall (h : list acl_op) r,
+  reqs_plain h = true -> plain_req r = true -> no_collision h r.
+Proof.
+  intros h r Hh Hr t r' Hin E. unfold reqs_plain in Hh. rewrite forallb_forall in Hh.
+  specialize (Hh _ Hin). cbn in Hh. now apply key_injective.
+Qed.
+
+(* transparent, ACL instance: with the basic ACL model underneath, a history made of Enforce
+   calls and LISTED invalidating mutators only, and no other request with the key of r, the
+   wrapper answers exactly what the embedded enforcer answers at that moment *)
+Lemma acl_transparent : forall v rules (h : list acl_op) r now,
+  forallb (acl_op_ok v) h = true -> acl_req_ok r = true -> no_collision h r ->
+  snd (acl_run_step v (run acl_enforce acl_step v (acl_init rules) h) (Enforce now r)) =
+  out_of_u (acl_enforce (ust (run acl_enforce acl_step v (acl_init rules) h)) r).
+Proof.
+  intros v rules h r now Hh Ok NC. unfold acl_run_step, acl_init. apply transparent; [|exact NC].
+  rewrite forallb_forall in Hh. apply Forall_forall. intros o Hin. apply acl_respects; auto.
+Qed.
+
+(* ... in particular when all requests are tuples of sep_safe strings *)
+Lemma acl_transparent_plain : forall v rules (h : list acl_op) r now,
+  forallb (acl_op_ok v) h = true -> reqs_plain h = true ->
+  plain_req r = true -> all_empty r = false ->
+  snd (acl_run_step v (run acl_enforce acl_step v (acl_init rules) h) (Enforce now r)) =
+  out_of_u (acl_enforce (ust (run acl_enforce acl_step v (acl_init rules) h)) r).
+Proof.
+  intros v rules h r now Hh Hp Pr AE. apply acl_transparent; [exact Hh| |now apply plain_no_collision].
+  unfold acl_req_ok. destruct r as [|p r]; [discriminate AE|].
+  destruct p; try (now rewrite AE). cbn in Pr. discriminate Pr.
+Qed.
+
+(* ------------------------------------------------------------------------------------ *)
+(* Outside the guards the statement is false of the faithful model (witnesses)            *)
+(* ------------------------------------------------------------------------------------ *)
+
+Definition w_pol : list (list string) := [["alice"; "data1"; "read"]; ["bob"; "data2"; "write"]].
+Definition w_req (a b c : string) : list param := [PStr a; PStr b; PStr c].
+
+(* (what the wrapper answers after history h, what the embedded enforcer answers then) *)
+Definition answers (v : variant) (rules : list (list string)) (h : list acl_op) (r : list param)
+  : out * out :=
+  let s := run acl_enforce acl_step v (acl_init rules) h in
+  (snd (acl_run_step v s (Enforce 0%Z r)), out_of_u (acl_enforce (ust s) r)).
+
+(* F31: removal of the identical rule through an entry point the wrappers do not override *)
+Lemma passthrough_remove_stale_refuted : forall v,
+  answers v w_pol [Enforce 0%Z (w_req "alice" "data1" "read");
+                   Passthrough (MRemoveNamed ["alice"; "data1"; "read"])]
+          (w_req "alice" "data1" "read") = (ODec true false, ODec false false) /\
+  answers v w_pol [Enforce 0%Z (w_req "alice" "data1" "read");
+                   Passthrough (MRemoveFiltered 0 ["alice"])]
+          (w_req "alice" "data1" "read") = (ODec true false, ODec false false) /\
+  answers v w_pol [Enforce 0%Z (w_req "alice" "data1" "read");
+                   Passthrough (MUpdate ["alice"; "data1"; "read"] ["alice"; "data1"; "write"])]
+          (w_req "alice" "data1" "read") = (ODec true false, ODec false false).
+Proof. intros []; vm_compute; auto. Qed.
+
+Lemma passthrough_add_stale_refuted :
+  answers Synced w_pol [Enforce 0%Z (w_req "carol" "data1" "read");
+                        Passthrough (MAddNamed ["carol"; "data1"; "read"])]
+          (w_req "carol" "data1" "read") = (ODec false false, ODec true false).
+Proof. vm_compute. reflexivity. Qed.
+
+(* F21: two tuples with one key share a cached decision, all operations listed *)
+Lemma collision_stale_refuted : forall v,
+  let h := [Enforce 0%Z (w_req "a$$" "b" "c")] in
+  forallb (acl_op_ok v) h = true /\ acl_req_ok (w_req "a" "$$b" "c") = true /\
+  answers v [["a"; "$$b"; "c"]] h (w_req "a" "$$b" "c") = (ODec false false, ODec true false).
+Proof. intros []; vm_compute; auto. Qed.
+
+(* a string and a CacheableParam with the same text share a decision as well *)
+Lemma text_confusion_stale_refuted : forall v,
+  answers v w_pol [Enforce 0%Z [PKey "alice"; PStr "data1"; PStr "read"]]
+          (w_req "alice" "data1" "read") = (ODec false false, ODec true false).
+Proof. intros []; vm_compute; auto. Qed.
+
+(* the guards of acl_transparent are needed: *)
+(* a request with a leading EnforceContext is never "the identical rule" *)
+Lemma ctx_request_stale_refuted : forall v,
+  let r := PCtx "r" "p" "e" "m" :: w_req "alice" "data1" "read" in
+  let h := [Enforce 0%Z r; RemovePolicy (w_req "alice" "data1" "read")] in
+  forallb (acl_op_ok v) h = true /\
+  answers v w_pol h r = (ODec true false, ODec false false).
+Proof. intros []; vm_compute; auto. Qed.
+
+(* the all-empty request depends on whether any rule exists (empty-policy convention) *)
+Lemma all_empty_stale_refuted : forall v,
+  let h := [Enforce 0%Z (w_req "" "" ""); RemovePolicy (w_req "alice" "data1" "read")] in
+  forallb (acl_op_ok v) h = true /\
+  answers v [["alice"; "data1"; "read"]] h (w_req "" "" "") = (ODec false false, ODec true false).
+Proof. intros []; vm_compute; auto. Qed.
+
+(* AddPolicy is not an invalidation event on the plain variant (the statement lists additions
+   for the synced variant only) *)
+Lemma plain_add_stale_refuted :
+  answers Plain w_pol [Enforce 0%Z (w_req "carol" "data1" "read");
+                       AddPolicy (w_req "carol" "data1" "read")]
+          (w_req "carol" "data1" "read") = (ODec false false, ODec true false) /\
+  answers Synced w_pol [Enforce 0%Z (w_req "carol" "data1" "read");
+                        AddPolicy (w_req "carol" "data1" "read")]
+          (w_req "carol" "data1" "read") = (ODec true false, ODec true false).
+Proof. vm_compute. auto. Qed.
+
+(* a rule of the wrong arity added on the synced variant turns other decisions into errors *)
+Lemma synced_add_bad_arity_refuted :
+  answers Synced w_pol [Enforce 0%Z (w_req "carol" "data1" "read"); AddPolicy [PStr "x"; PStr "y"]]
+          (w_req "carol" "data1" "read") = (ODec false false, ODec false true).
+Proof. vm_compute. reflexivity. Qed.
+
+(* non-vacuity material: a history that exercises hits, every listed invalidation event, both
+   calling conventions, a disabled phase and a lifetime, inside all guards *)
+Definition w_history : list acl_op :=
+  [ Enforce 0%Z (w_req "alice" "data1" "read");
+    Enforce 1%Z (w_req "alice" "data1" "read");
+    RemovePolicy [PSlice ["alice"; "data1"; "read"]];
+    Enforce 2%Z (w_req "alice" "data1" "read");
+    EnableCache false; ClearPolicy; EnableCache true;
+    Enforce 3%Z (w_req "bob" "data2" "write");
+    LoadPolicy; SetExpireTime 30%Z;
+    Enforce 4%Z (w_req "bob" "data2" "write");
+    RemovePolicies [["bob"; "data2"; "write"; "x"]; ["bob"; "data2"; "write"]];
+    Enforce 100%Z (w_req "bob" "data2" "write");
+    InvalidateCache ].
+
+Lemma w_history_ok : forall v,
+  forallb (acl_op_ok v) w_history = true /\ reqs_plain w_history = true /\
+  map (fun n => snd (acl_run_step v (run acl_enforce acl_step v (acl_init w_pol) (firstn n w_history))
+                                  (nth n w_history InvalidateCache))) [0; 1; 3; 7; 10; 12]
+  = [ODec true false; ODec true false; ODec false false; ODec false false; ODec true false; ODec false false].
+Proof. intros []; vm_compute; auto. Qed.
